@@ -170,6 +170,16 @@ Theorem C07_accepted_fraction_spec :
 Proof. exact (@accepted_fraction). Qed.
 Print Assumptions C07_accepted_fraction_spec.
 
+(* ... and one clock cycle on a concrete stream is: run that tree, then the deterministic filter *)
+Theorem C07_cycle_is_tree_then_accept :
+  forall (K : Type) (o : ops K) (d : @detector K) (h : hdict) (ps : postselect) (mind : Z)
+         (s : state) (us : list K),
+    process_sample o d h ps mind s us =
+    bind (run_tree o (get_output_tree o d s) us)
+         (fun a => bind (accept h ps mind (fst a)) (fun r => Ok (r, snd a))).
+Proof. exact (@process_sample_tree). Qed.
+Print Assumptions C07_cycle_is_tree_then_accept.
+
 (* every detector the Detector setters accept is valid, over the reals *)
 Theorem C07_detector_valid_reals :
   forall (eta pd : R) (pc : bool),
